@@ -35,4 +35,30 @@ let () =
                   ncY = z ((r / py) * kqy); ncT = z ((r / pt) * kqt) } in
         string_of_int (int_of_z (num_cols c))
       end
+    | "upd" :: rest when List.length rest = 17 ->
+      (match List.map int_of_string rest with
+       | [my; ny; mys; mye; nys; nye; i0; j0; tlr; tlc; brr; brc; mb; nb; offr; offc; same] ->
+         let small x = x >= 1 && x <= 8 and off x = x >= 0 && x <= 8 in
+         if not (small tlr && small tlc && small brr && small brc && small mb && small nb
+                 && off i0 && off j0 && off offr && off offc
+                 && mys >= 0 && mye >= mys && mye <= mys + 5 && nys >= 0 && nye >= nys && nye <= nys + 5)
+         then "<skip>" else begin
+           (* the nested row / column case split of CORE_redistribute_update *)
+           match upd_seg (z my) (z mys) (z mye) (z i0) (z tlr) (z brr) (z mb) (z offr),
+                 upd_seg (z ny) (z nys) (z nye) (z j0) (z tlc) (z brc) (z nb) (z offc) with
+           | Some ((si, di), li), Some ((sj, dj), lj) ->
+             let si = int_of_z si and di = int_of_z di and li = int_of_z li
+             and sj = int_of_z sj and dj = int_of_z dj and lj = int_of_z lj in
+             let cells = ref [] in
+             for a = 0 to li - 1 do for b = 0 to lj - 1 do
+               (* same rank: read from the source tile (value (i+1)*100+j); else from the packed piece
+                  (leading dimension = its number of rows), harness buffer value = linear index *)
+               let v = if same <> 0 then (si + a + 1) * 100 + (sj + b) else a + b * li in
+               cells := (di + a, dj + b, v) :: !cells
+             done done;
+             let l = List.sort compare !cells in
+             if l = [] then "-" else String.concat " " (List.map (fun (i, j, v) -> Printf.sprintf "%d,%d=%d" i j v) l)
+           | _ -> "-"
+         end
+       | _ -> "<bad case>")
     | _ -> "<bad case>")
